@@ -106,10 +106,17 @@ class Bindings:
             for bb, t in fn.calls():
                 name = t['func'].get('fn')
                 callee = facts.fn(name) if name else None
+                args = t['func'].get('fnargs', [])
+                if t.get('trait') and t.get('resolved_local') and t.get('rk') == 'item' and facts.fn(t.get('resolved') or ''):
+                    # a method of an in-crate trait, statically resolved to its impl: the impl method's own type parameters are bound by
+                    # the arguments that follow `Self` (`SchedulerCoreThreads::schedule_dormant::<SchedulerCore, {closure}, {closure}, _>`)
+                    callee = facts.fn(t['resolved'])
+                    cparams = [g for g in callee.generics if g['kind'] != 'lifetime' and not g['name'].startswith('<') and g['name'] != 'Self']
+                    if len(args) == len(cparams) + 1:
+                        args = args[1:]
                 if not callee:
                     continue
-                params = [g for g in callee.generics if g['kind'] != 'lifetime' and not g['name'].startswith('<')]
-                args = t['func'].get('fnargs', [])
+                params = [g for g in callee.generics if g['kind'] != 'lifetime' and not g['name'].startswith('<') and not (t.get('trait') and g['name'] == 'Self')]
                 if len(params) != len(args):
                     continue
                 for g, a in zip(params, args):
@@ -1024,6 +1031,18 @@ class Proto:
             if x is not None:
                 if dl is not None:
                     x = vset(x, dl, ('bool', int(truth)))
+                    # the tested temporary is a copy of a named local (`let has_jobs = ..; state = if has_jobs {..} else {..}; has_jobs`):
+                    # the branch taken fixes the value of that local as well, as long as it still holds the very predicate that was tested
+                    src = dl
+                    for _ in range(4):
+                        ds = [d_ for d_ in fn.defs().get(src, []) if not fn.blocks[d_[1]]['cleanup']]
+                        if len(ds) != 1 or ds[0][0] != 'stmt' or ds[0][3]['k'] != 'use' or ds[0][3]['op']['k'] not in ('copy', 'move') or ds[0][3]['op']['pl']['p']:
+                            break
+                        src = ds[0][3]['op']['pl']['l']
+                        if vget(x, src) == v and src not in _untracked():
+                            x = vset(x, src, ('bool', int(truth)))
+                        else:
+                            break
                 out.append((tgt, x))
         return out
 
@@ -1194,8 +1213,18 @@ class Proto:
                 elif self.is_state_expr(eb) and va:
                     val = ('pred', ('in', va))
                 else:
-                    la = self._root_local(fn, args[0]['pl']) if args[0]['k'] != 'const' else None
-                    lb = self._root_local(fn, args[1]['pl']) if args[1]['k'] != 'const' else None
+                    def ref_target(a_):
+                        # `&x` handed by reference (eq takes &self, &other): the local the reference temporary points at
+                        if a_['k'] == 'const':
+                            return None
+                        l_ = self._root_local(fn, a_['pl'])
+                        if l_ is not None and not a_['pl']['p'] and vget(st, l_) is None:
+                            ds_ = [d_ for d_ in fn.defs().get(l_, []) if not fn.blocks[d_[1]]['cleanup']]
+                            if len(ds_) == 1 and ds_[0][0] == 'stmt' and ds_[0][3]['k'] == 'ref' and not ds_[0][3]['pl']['p']:
+                                return ds_[0][3]['pl']['l']
+                        return l_
+                    la = ref_target(args[0])
+                    lb = ref_target(args[1])
                     if la is not None and vb and vget(st, la) and vget(st, la)[0] == 'qs':
                         val = ('pred', ('lin', la, vb))
                     elif lb is not None and va and vget(st, lb) and vget(st, lb)[0] == 'qs':
